@@ -454,7 +454,7 @@ def doc_excluded(outer, mid_kind, inner_kind, t2l, s2l):
 def roundtrip(mid: int, inner: int, a: int, b: str, t2l: bool, s2l: bool, via: int) -> bool:
     """
     pre: 0 <= mid < len(DOC_KINDS) and 0 <= inner < len(DOC_KINDS) and len(b) <= H.P('slen', 1) and via == H.P('via', 0)
-    pre: allowed(mid, 'kinds') and allowed(inner, 'kinds')
+    pre: allowed(mid, 'mids') and allowed(inner, 'inners')
     pre: doc_ok(H.P('outer'), pick(DOC_KINDS, mid), pick(DOC_KINDS, inner))
     pre: not doc_excluded(H.P('outer'), pick(DOC_KINDS, mid), pick(DOC_KINDS, inner), t2l, s2l)
     pre: H.fresh(mid, inner, a, b, t2l, s2l, via)
@@ -520,13 +520,14 @@ def conditions(tier, seed):
 
     def add(name, func, bounds, timeout, **param):
         out.append({'name': name, 'func': func, 'timeout': timeout, 'param': param, 'bounds': bounds})
-    slen = 1 if q else 2
+    slen = 0 if q else 2
+    quick_inner = [i for i, k in enumerate(INNER_KINDS) if k not in ('map', 'chain', 'islice', 'limited', 'deque')]
     for outer in OUTERS:
         if q:
             add('finalize_shape[%s]' % outer, 'finalize_shape',
-                'outer %s with 2 children; child kind symbolic over %d kinds (leaves, containers of two leaves); symbolic int/str '
-                'leaves (str len <= 1); t2l, s2l symbolic; statement `$v` -> #finalize' % (outer, len(INNER_KINDS)),
-                150, outer=outer, nlo=2, nhi=2, vias=[0], slen=slen)
+                'outer %s with 2 children; child kind symbolic over %d kinds (leaves, containers of two leaves); symbolic int '
+                'leaves; t2l, s2l symbolic; statement `$v` -> #finalize' % (outer, len(quick_inner)),
+                150, outer=outer, nlo=2, nhi=2, vias=[0], slen=slen, inners=quick_inner)
         else:
             for lo, hi in ((0, 1), (2, 2), (3, 3)):
                 add('finalize_shape[%s,n%d-%d]' % (outer, lo, hi), 'finalize_shape',
@@ -535,18 +536,19 @@ def conditions(tier, seed):
                     900, outer=outer, nlo=lo, nhi=hi, vias=[0], slen=slen)
     for via, what in ((1, 'YaqlInterface.__call__'), (2, 'YaqlInterface function stub')):
         if q:
-            add('finalize_via[%s]' % what, 'finalize_via', 'outer symbolic over %d kinds, child symbolic over %r, 0..1 children, '
-                't2l, s2l symbolic; through %s' % (len(OUTERS), REP_KINDS, what), 300, via=via, inners=REP)
+            add('finalize_via[%s]' % what, 'finalize_via', 'outer symbolic over %d kinds, 0..1 children of kind tuple, '
+                't2l, s2l symbolic; through %s' % (len(OUTERS), what), 300, via=via, inners=[INNER_KINDS.index('tuple')])
         else:
             for g in range(0, len(INNER_KINDS), 6):
                 add('finalize_via[%s,%d]' % (what, g), 'finalize_via', 'outer symbolic over %d kinds, child symbolic over %r, '
                     '0..1 children, t2l, s2l symbolic; through %s' % (len(OUTERS), INNER_KINDS[g:g + 6], what), 900,
                     via=via, inners=list(range(g, min(g + 6, len(INNER_KINDS)))))
     if q:
-        for outer in [k for i, k in enumerate(OUTERS) if (i + seed) % 7 == 0]:
+        for outer in [k for i, k in enumerate(OUTERS) if (i + seed) % 10 == 0]:
             add('finalize_deep[%s]' % outer, 'finalize_deep',
-                'depth 3: %s [ mid [ inner [leaves] ], leaf ]; mid, inner symbolic over %r; t2l, s2l symbolic' % (outer, REP_KINDS),
-                200, outer=outer, mids=REP, inners=REP, slen=slen)
+                'depth 3: %s [ mid [ inner [leaves] ], leaf ]; mid symbolic over %r, inner over leaf-int,tuple,frozenset,generator; t2l, s2l symbolic' % (outer, REP_KINDS),
+                300, outer=outer, mids=REP, inners=[INNER_KINDS.index(k) for k in ('leaf-int', 'tuple', 'frozenset', 'generator')],
+                slen=slen)
     else:
         for outer in OUTERS:
             for mi, mk in enumerate(INNER_KINDS):
@@ -555,13 +557,27 @@ def conditions(tier, seed):
                 add('finalize_deep[%s,%s]' % (outer, mk), 'finalize_deep',
                     'depth 3: %s [ %s [ inner [leaves] ], leaf ]; inner symbolic over %r; t2l, s2l symbolic' % (outer, mk, REP_KINDS),
                     600, outer=outer, mids=[mi], inners=REP, slen=1)
-    doc_sub = [i for i, k in enumerate(DOC_KINDS) if not q or k not in ('leaf-none', 'leaf-bool', 'leaf-float')]
-    for outer in DOC_OUTER:
-        for via, what in ((0, 'engine("$").evaluate(data=doc)'), (1, 'YaqlInterface("$1", doc)')):
-            add('roundtrip[%s,%s]' % (outer, 'evaluate' if via == 0 else 'interface'), 'roundtrip',
-                'host document %s [ mid [ inner [leaves] ], leaf ]; mid, inner symbolic over %s; symbolic leaves; t2l, s2l '
-                'symbolic; via %s' % (outer, ','.join(DOC_KINDS[i] for i in doc_sub), what),
-                200 if q else 900, outer=outer, via=via, kinds=doc_sub, slen=slen)
+    if q:
+        mids = [i for i, k in enumerate(DOC_KINDS) if k not in ('leaf-none', 'leaf-bool', 'leaf-float')]
+        inners = [DOC_KINDS.index(k) for k in ('dict', 'tuple', 'set', 'leaf-int')]
+        for outer in DOC_OUTER:
+            add('roundtrip[%s,evaluate]' % outer, 'roundtrip',
+                'host document %s [ mid [ inner [leaves] ], leaf ]; mid symbolic over %s, inner over dict,tuple,set,leaf; symbolic '
+                'int leaves; t2l, s2l symbolic; via engine("$").evaluate(data=doc)' % (outer, ','.join(DOC_KINDS[i] for i in mids)),
+                200, outer=outer, via=0, mids=mids, inners=inners, slen=0)
+            add('roundtrip[%s,interface]' % outer, 'roundtrip',
+                'host document %s [ mid [ leaf.. ], leaf ]; mid symbolic over %s; t2l, s2l symbolic; via YaqlInterface("$1", doc)'
+                % (outer, ','.join(DOC_KINDS[i] for i in mids)), 200, outer=outer, via=1, mids=mids,
+                inners=[DOC_KINDS.index('leaf-int')], slen=0)
+    else:
+        every = list(range(len(DOC_KINDS)))
+        for outer in DOC_OUTER:
+            for via, what in ((0, 'engine("$").evaluate(data=doc)'), (1, 'YaqlInterface("$1", doc)')):
+                for mi, mk in enumerate(DOC_KINDS):
+                    add('roundtrip[%s,%s,%s]' % (outer, mk, 'evaluate' if via == 0 else 'interface'), 'roundtrip',
+                        'host document %s [ %s [ inner [leaves] ], leaf ]; inner symbolic over %s; symbolic int/str(len<=2) leaves; '
+                        't2l, s2l symbolic; via %s' % (outer, mk, ','.join(DOC_KINDS), what),
+                        600, outer=outer, via=via, mids=[mi], inners=every, slen=slen)
     add('roundtrip_json', 'roundtrip_json', 'six JSON document skeletons with symbolic int/str(len<=3)/float/bool leaves, '
         'library-default engine, both entry points', 120 if q else 400)
     for key in sorted(PROBE_SHAPES):
